@@ -35,6 +35,8 @@ type Contract struct {
 	Nullable []string // pointer parameters that may be nil (query requests)
 	Without  []string // prelude functions kept uninterpreted (their axioms are not needed by this function's proof)
 	Trusted  bool     // "trusted": contract is assumed, body not verified (listed in evidence)
+	LoopOver map[int]string       // "loop N over name": loop N is the loop whose guard runs to len(name) (parameter or field name)
+	Locals   map[string]LocalDesc // "local name type [#n]": structural fallback when the source name is gone (renamed local)
 	Layer    string
 	File     string
 	Line     int
@@ -50,6 +52,12 @@ func (c *Contract) byKind(k string) []*Clause {
 	return out
 }
 
+// LocalDesc identifies a local variable by shape: the N-th phi / alloc / make of the given Go type in block order.
+type LocalDesc struct {
+	Type string
+	N    int
+}
+
 type Lemma struct {
 	Name  string
 	Props []string
@@ -62,7 +70,7 @@ type Lemma struct {
 
 var propRe = regexp.MustCompile(`C[0-9]{2}`)
 var headRe = regexp.MustCompile(`^func\s+(?:\(\s*\*?\s*([A-Za-z_][A-Za-z0-9_]*)\s*\)\s*)?([A-Za-z_][A-Za-z0-9_$]*)\s*\(([^)]*)\)\s*(?:\(([^)]*)\))?\s*$`)
-var clauseRe = regexp.MustCompile(`^(requires|ensures|modifies|emits|calls|invariant|assigns|trusted|layer|loop|serves|defines|nullable|without|assert@[A-Za-z0-9_.]+)\s*(?:\[([^\]]*)\])?\s*(.*)$`)
+var clauseRe = regexp.MustCompile(`^(requires|ensures|modifies|emits|calls|invariant|assigns|trusted|layer|loop|serves|defines|nullable|without|local|assert@[A-Za-z0-9_.]+)\s*(?:\[([^\]]*)\])?\s*(.*)$`)
 
 type ContractFile struct {
 	Contracts []*Contract
@@ -262,6 +270,23 @@ func ParseContractFile(path string) (*ContractFile, error) {
 		case "nullable":
 			cur.Nullable = append(cur.Nullable, splitNames(rest)...)
 			continue
+		case "local":
+			// local name type [#n]
+			f := strings.Fields(rest)
+			if len(f) < 2 {
+				return nil, fmt.Errorf("%s:%d: bad local clause", path, l.no)
+			}
+			d := LocalDesc{}
+			if last := f[len(f)-1]; strings.HasPrefix(last, "#") && len(f) > 2 {
+				fmt.Sscanf(last[1:], "%d", &d.N)
+				f = f[:len(f)-1]
+			}
+			d.Type = strings.Join(f[1:], " ")
+			if cur.Locals == nil {
+				cur.Locals = map[string]LocalDesc{}
+			}
+			cur.Locals[f[0]] = d
+			continue
 		case "loop":
 			// "loop N invariant[label] expr" or "loop N assigns a, b"
 			var n int
@@ -270,6 +295,13 @@ func ParseContractFile(path string) (*ContractFile, error) {
 				return nil, fmt.Errorf("%s:%d: bad loop clause", path, l.no)
 			}
 			sub = strings.TrimSpace(strings.TrimLeftFunc(rest, func(r rune) bool { return unicode.IsDigit(r) || r == ' ' }))
+			if strings.HasPrefix(sub, "over ") {
+				if cur.LoopOver == nil {
+					cur.LoopOver = map[int]string{}
+				}
+				cur.LoopOver[n] = strings.TrimSpace(sub[5:])
+				continue
+			}
 			m2 := clauseRe.FindStringSubmatch(sub)
 			if m2 == nil {
 				return nil, fmt.Errorf("%s:%d: bad loop clause %q", path, l.no, sub)
